@@ -320,7 +320,10 @@ class Canon:
                 n = self.coll_len(coll)
                 base, off = self.coll_base(coll)
                 I_ = 'each(Range::Range{0, %s})' % n
-                if rev:
+                if rev and n.isdigit() and not off:
+                    # a[len-1-i], i in 0..len, is a[j] with j running down through the range
+                    idx = 'each(rev(Range::Range{0, %s}))' % n
+                elif rev:
                     idx = 'SubWithOverflow(%s, %s).0' % (str(int(n) - 1 + off) if n.isdigit() else 'SubWithOverflow(%s, 1).0' % n, I_)
                 else:
                     idx = I_ if not off else 'AddWithOverflow(%s, %d).0' % (I_, off)
